@@ -330,6 +330,17 @@ func (dec *Decoder) ReadReference(p interface{}) {
 func (dec *Decoder) convertReference(o interface{}, p interface{}) {
 	src := reflect.TypeOf(o)
 	dest := reflect.TypeOf(p).Elem()
+	if src == nil {
+		// a reference to a slot that holds no value (the placeholder of a container a codec
+		// reads element by element)
+		if dec.Error == nil {
+			dec.Error = CastError{
+				Source:      src,
+				Destination: dest,
+			}
+		}
+		return
+	}
 	if conv := GetConverter(src, dest); conv != nil {
 		conv(dec, o, p)
 	} else if src != nil && src.Kind() == dest.Kind() && src.ConvertibleTo(dest) {
